@@ -31,6 +31,7 @@ type PairOpts struct {
 	HTTPOpts   *mcp.StreamableHTTPOptions
 	MaxRetries int
 	DisableStandaloneSSE bool
+	AsyncDelete bool
 }
 
 // Pair is a connected client/server session pair.
@@ -116,7 +117,7 @@ func Connect(ctx context.Context, o PairOpts) (*Pair, error) {
 		}
 		h := mcp.NewStreamableHTTPHandler(func(*http.Request) *mcp.Server { return o.Server }, &ho)
 		p.H = h
-		p.InProc = &InProc{Handler: h, Log: o.Log}
+		p.InProc = &InProc{Handler: h, Log: o.Log, AsyncDelete: o.AsyncDelete}
 		ct := &mcp.StreamableClientTransport{Endpoint: "http://example.test/mcp", HTTPClient: p.InProc.Client(), MaxRetries: o.MaxRetries, DisableStandaloneSSE: o.DisableStandaloneSSE}
 		cs, err := o.Client.Connect(ctx, maybeWrap(ct, o.WrapClient), copts)
 		if err != nil {
@@ -178,6 +179,16 @@ func (f *FaultConn) Read(ctx context.Context) (jsonrpc.Message, error) {
 	go func() {
 		m, e := f.Connection.Read(ctx)
 		ch <- res{m, e}
+		// Once the read side has been killed nobody consumes the inner connection any
+		// more; keep draining it (into the void) so that a live peer writing to an
+		// unbuffered pipe is not stalled by the injected fault itself.
+		select {
+		case <-f.kill:
+			for e == nil {
+				_, e = f.Connection.Read(ctx)
+			}
+		default:
+		}
 	}()
 	select {
 	case r := <-ch:
